@@ -49,7 +49,6 @@ GRIDS = {
     'd7': [-1.0, -0.75, -0.5, 0.0, 0.125, 0.5, 1.0],
     'u8': [-1.0 + 2.0 * i / 7.0 for i in range(8)],
     'd9': [-1.0, -0.875, -0.5, -0.25, 0.0, 0.125, 0.375, 0.75, 1.0],
-    'u10': [-0.9 + 0.2 * i for i in range(10)],
 }
 WVALS = {'unit': [1.0] * 12, 'varied': [0.5, 2.0, 1.0, 0.25, 4.0, 1.5, 0.5, 2.0, 1.0, 0.25, 4.0, 1.5]}
 
@@ -443,7 +442,7 @@ def tasks(tier):
     for func in BASIS_FUNCS:
         for m in range(1 if func != 'fchebyshev_split' else 2, 13):
             t.append({'f': 'basis', 'func': func, 'm': m, 'T': T})
-    fitgrids = [('u6', 5), ('d7', 3)] if not T else [('u6', 5), ('d7', 5), ('u8', 5), ('d9', 4), ('u10', 3)]
+    fitgrids = [('u6', 5), ('d7', 3)] if not T else [('u6', 5), ('d7', 5), ('u8', 4), ('d9', 3)]
     for func in FIT_FUNCS:
         for g, maxnc in fitgrids:
             for nc in range(1 if func != 'chebyshev_split' else 2, maxnc + 1):
@@ -511,7 +510,7 @@ def run_task(task):
         func, nc = task['func'], task['nc']
         x = GRIDS[task['grid']]
         n = len(x)
-        ykinds = ['combo', 'bump'] + ['unit:%d' % j for j in (range(n) if T else (0, n // 2))]
+        ykinds = ['combo', 'bump'] + ['unit:%d' % j for j in (range(n) if (T and n <= 7) else (0, n // 2, n - 1) if T else (0, n // 2))]
         for nzero in range(0, n - nc + 1):
             for zeros in itertools.combinations(range(n), nzero):
                 for wk in ('unit', 'varied'):
